@@ -183,7 +183,8 @@ def value_atom(fn_node, subject, value, sets=None, other=None):
                 m = members(r)
                 if m is not None: return (value in m) == isinstance(op, _ast.In)
             if isinstance(op, (_ast.Is, _ast.IsNot)) and is_subj(l) and isinstance(r, _ast.Constant) and r.value is None:
-                return (value is None) == isinstance(op, _ast.Is)
+                # eval_test asks for the reading named in `text` (`X is None` first, for either operator) and negates itself
+                return (value is not None) if text.endswith(' is not None') else (value is None)
         return other(text, node) if other else None
     return atom
 
@@ -314,3 +315,59 @@ def resolve_names(fn_node, e):
                 if r is not node: return _copy.deepcopy(r)
             return node
     return R().visit(_copy.deepcopy(e))
+
+
+# ---------------------------------------------------------------------------------------------------------------- isinstance dispatch
+BUILTIN_SUBCLASS = {'bool': {'int'}, 'datetime': {'date'}, 'datetime.datetime': {'datetime.date', 'date'}, 'OrderedDict': {'dict'}, 'defaultdict': {'dict'},
+                    'TrackedDict': {'dict', 'TrackedValue'}, 'TrackedList': {'list', 'TrackedValue'}, 'TrackedArray': {'list', 'TrackedList', 'TrackedValue'}}
+
+
+def _type_names(e):
+    """names of the classes in the second argument of isinstance()"""
+    if isinstance(e, (ast.Tuple, ast.List)): return [n for x in e.elts for n in _type_names(x)]
+    d = dotted(e)
+    return [d] if d else []
+
+
+def _is_subclass_name(repo, mod, sub, sup):
+    if sub == sup or sub.split('.')[-1] == sup.split('.')[-1] and ('.' in sub) != ('.' in sup): return True
+    if sup in BUILTIN_SUBCLASS.get(sub, ()) or sup.split('.')[-1] in BUILTIN_SUBCLASS.get(sub.split('.')[-1], ()): return True
+    c1 = repo.resolve_name(mod, sub.split('.')[0]) if repo is not None and '.' not in sub else None
+    c2 = repo.resolve_name(mod, sup.split('.')[0]) if repo is not None and '.' not in sup else None
+    if c1 is not None and c2 is not None and hasattr(c1, 'methods') and hasattr(c2, 'methods'):
+        try: return c2 in repo.mro(c1)
+        except Exception: return False
+    return False
+
+
+def shadowed_isinstance_tests(repo, mod, g, fn_node):
+    """[(test node, text of the earlier test)]: an `isinstance(x, T2)` test whose true-branch cannot be taken for an instance of T2 because every path to
+    it has already answered `isinstance(x, T1)` with T2 a subclass of T1 (datetime after date, bool after int, a subclass after its base): the
+    branch written for the more specific type is dead and the value is handled as the general one"""
+    from .typestate import scenario_edges
+    out = []
+    assigned = {}
+    for s in ast.walk(fn_node):
+        if isinstance(s, (ast.Assign, ast.AugAssign, ast.AnnAssign, ast.For, ast.With, ast.NamedExpr)):
+            for t in (s.targets if isinstance(s, ast.Assign) else [getattr(s, 'target', None)]):
+                for n in ast.walk(t) if t is not None else ():
+                    if isinstance(n, ast.Name): assigned[n.id] = assigned.get(n.id, 0) + 1
+    tests = []
+    for n in g.nodes:
+        if n.kind != 'test' or n.ast is None: continue
+        t = n.ast
+        if isinstance(t, ast.Call) and dotted(t.func) == 'isinstance' and len(t.args) == 2 and isinstance(t.args[0], ast.Name) and assigned.get(t.args[0].id, 0) <= 1:
+            names = _type_names(t.args[1])
+            if names: tests.append((n, t.args[0].id, names))
+    for n, subj, names in tests:
+        for target in names:
+            def atom(text, node, subj=subj, target=target):
+                if isinstance(node, ast.Call) and dotted(node.func) == 'isinstance' and len(node.args) == 2 and isinstance(node.args[0], ast.Name) and node.args[0].id == subj:
+                    if any(_is_subclass_name(repo, mod, target, sup) for sup in _type_names(node.args[1])): return True
+                return None
+            eo = scenario_edges(g, fn_node, atom, resolve=False, aliases=False)
+            live = g.reach([g.entry], edge_ok=eo)
+            if n.id not in live:
+                earlier = [norm(m.ast) for m, s2, nm in tests if m is not n and s2 == subj and any(_is_subclass_name(repo, mod, target, sup) for sup in nm)]
+                out.append((n, target, earlier[0] if earlier else '?'))
+    return out
